@@ -64,9 +64,15 @@ func (r *Router) route(s Sender, p stanza.Packet) {
 		}
 		r.IQResultRouteLock.Unlock()
 		if ok {
-			route.result <- *iq
-			close(route.result)
-			return
+			// The caller may have given up (context done) without reading the channel: do not wait forever
+			select {
+			case route.result <- *iq:
+				close(route.result)
+				return
+			case <-route.context.Done():
+				// The request was given up: the response is handled like any other packet
+				close(route.result)
+			}
 		}
 	}
 
